@@ -12,11 +12,16 @@ N2 = "TTGACCGATAGGCATCAAGT"
 RC = str.maketrans("ACGT", "TGCA")
 
 
+def qname(k):
+    # read names are free text: FASTQ-style names keep their '@', some pipelines prefix '#'
+    return ["q%d", "q%d", "@q%d", "q%d", "#q%d", "q%d"][k % 6] % k
+
+
 def make_line(k, fields, cgpos, rev, spaced):
     path = "<s2<s1" if rev else ">s1>s2"
     plen = len(N1) + len(N2)
     L = 30
-    name = f"q{k}" + (" extra words" if spaced else "")
+    name = qname(k) + (" extra words" if spaced else "")
     opt = [":".join(f) for f in fields]
     if cgpos:
         opt.insert(cgpos - 1, f"cg:Z:{L - 1}=1X")
@@ -59,8 +64,7 @@ def run_file(job):
     d = workdir("tags_", fid)
     try:
         gfa = os.path.join(d, "g.gfa")
-        with open(gfa, "w") as f:
-            f.write(f"S\ts1\t{N1}\tLN:i:{len(N1)}\tSN:Z:chr1\tSO:i:0\tSR:i:0\nS\ts2\t{N2}\tLN:i:{len(N2)}\tSN:Z:chr1\tSO:i:{len(N1)}\tSR:i:0\nL\ts1\t+\ts2\t+\t0M\n")
+        write_text(gfa, f"S\ts1\t{N1}\tLN:i:{len(N1)}\tSN:Z:chr1\tSO:i:0\tSR:i:0\nS\ts2\t{N2}\tLN:i:{len(N2)}\tSN:Z:chr1\tSO:i:{len(N1)}\tSR:i:0\nL\ts1\t+\ts2\t+\t0M\n")
         lines = [make_line(k, fl, cg, rev, sp) for (k, fl, cg, rev, sp) in specs]
         gaf = os.path.join(d, "u.gaf")
         write_text(gaf, join_lines(lines, fid))
@@ -102,7 +106,7 @@ def run_file(job):
                 for nm_, sq_ in extra_reads:
                     f.write(f">{nm_}\n{sq_}\n")
                 for (k, fl, cg, rev, sp) in specs:
-                    f.write(f">q{k}\n{read_seq(rev)}\n")
+                    f.write(f">{qname(k)}\n{read_seq(rev)}\n")
             emit("realign", ["realign", gaf_r, gfa, fa, "-o", os.path.join(d, "o5")], rlines, os.path.join(d, "o5"))
         return cases
     finally:
